@@ -119,10 +119,10 @@ Proof.
     + exact Q.
   - unfold retry_step. destruct (s_retry s) as [|node|node val|node val rev|node rev eo|node st].
     + destruct (s_queue s) as [|[node t] rest] eqn:E; [exact Q|]. destruct (s_now s - t <? retry_interval); exact Q.
-    + destruct e; try exact Q. destruct (latest _) as [[modrev val]|]; [destruct (is_empty val || negb (modrev =? e_rev node))|]; exact Q.
+    + destruct e; try exact Q. destruct (latest _) as [[modrev val]|]; [destruct (negb (modrev =? e_rev node))|]; exact Q.
     + exact Q.
     + destruct (commit _ _ e). exact Q.
-    + exact Q.
+    + destruct eo as [er|]; [destruct (is_cas er)|]; exact Q.
     + intros ev t H. cbn [s_queue set_rlast set_retry set_queue] in H. apply (Q ev t).
       destruct (s_queue s); [contradiction|right; exact H].
   - exact Q.
@@ -226,9 +226,9 @@ Proof.
     + injection G0 as <-. cbn [t_pc t_unk]. apply (thread_step_unk _ _ _ _ _ _ _ _ TS W). apply (K t th G).
     + apply (K t0 th0 G0).
   - unfold seq_step. destruct (s_seq s); [destruct (s_slots s (s_committed s + 1)) as [ev|]; [destruct (e_valid ev); [|destruct (e_unc ev)]|]|..]; exact K.
-  - unfold retry_step. destruct (s_retry s) as [|node|node val|node val rev|node rev eo|node st]; try exact K.
+  - unfold retry_step. destruct (s_retry s) as [|node|node val|node val rev|node rev [er|]|node st]; try exact K; try (destruct (is_cas er); exact K).
     + destruct (s_queue s) as [|[node t] rest]; [exact K|]. destruct (s_now s - t <? retry_interval); exact K.
-    + destruct e; try exact K. destruct (latest _) as [[modrev val]|]; [destruct (is_empty val || negb (modrev =? e_rev node))|]; exact K.
+    + destruct e; try exact K. destruct (latest _) as [[modrev val]|]; [destruct (negb (modrev =? e_rev node))|]; exact K.
     + destruct (commit _ _ e). exact K.
   - exact K.
 Qed.
